@@ -326,12 +326,12 @@ func e2eScenario(R int, replies bool, c int) *explore.Scenario {
 		jm := cqrs.JSONMarshaler{}
 		finished := 0
 		backend, err := requestreply.NewPubSubBackend[Res](requestreply.PubSubBackendConfig{
-			Publisher:              g,
-			SubscriberConstructor:  func(requestreply.PubSubBackendSubscribeParams) (message.Subscriber, error) { return g, nil },
-			GenerateSubscribeTopic: func(requestreply.PubSubBackendSubscribeParams) (string, error) { return "reply", nil },
-			GeneratePublishTopic:   func(requestreply.PubSubBackendPublishParams) (string, error) { return "reply", nil },
+			Publisher:                g,
+			SubscriberConstructor:    func(requestreply.PubSubBackendSubscribeParams) (message.Subscriber, error) { return g, nil },
+			GenerateSubscribeTopic:   func(requestreply.PubSubBackendSubscribeParams) (string, error) { return "reply", nil },
+			GeneratePublishTopic:     func(requestreply.PubSubBackendPublishParams) (string, error) { return "reply", nil },
 			OnListenForReplyFinished: func(context.Context, requestreply.PubSubBackendSubscribeParams) { finished++ },
-			AckCommandErrors: true,
+			AckCommandErrors:         true,
 		}, marshaler)
 		if err != nil {
 			vs.Fail("setup", "%v", err)
